@@ -275,6 +275,8 @@ pub(crate) struct ThreadSt {
     pub token_vc: VClock,
     pub park_calls: u32,
     pub yielded: bool,
+    /// Yield points in a row at which this thread was enabled and passed over.
+    pub skipped: u32,
     pub os: Option<std::thread::Thread>,
     pub name: Option<String>,
     /// Clock accumulated by relaxed loads, published by an acquire fence.
@@ -693,9 +695,18 @@ impl Sim {
         // A thread that just yielded is passed over once if anything else can
         // run, so that spin-with-yield loops cannot starve the system under
         // non-preemptive strategies.
+        //
+        // With three or more threads that is not enough: two spinners can
+        // hand the turn to each other for ever while a strategy that never
+        // prefers the third thread (priorities, a starved victim, run-to-
+        // block) keeps it waiting. So threads passed over at yield points
+        // age: one that was enabled and passed over at two yield points in a
+        // row is given the turn at the next one. Strategies keep their choice
+        // everywhere else, and with two threads nothing changes.
         let mut enabled = &enabled[..n];
         let mut filtered = [0usize; MAX_THREADS];
-        if n >= 2 && st.threads[me].yielded && enabled.contains(&me) {
+        let yield_point = n >= 2 && st.threads[me].yielded && enabled.contains(&me);
+        if yield_point {
             let mut m = 0;
             for &t in enabled {
                 if t != me {
@@ -703,9 +714,31 @@ impl Sim {
                     m += 1;
                 }
             }
+            let oldest = filtered[..m]
+                .iter()
+                .copied()
+                .filter(|&t| st.threads[t].skipped >= 2)
+                .max_by_key(|&t| (st.threads[t].skipped, std::cmp::Reverse(t)));
+            if let Some(t) = oldest {
+                filtered[0] = t;
+                m = 1;
+            }
             enabled = &filtered[..m];
         }
         st.threads[me].yielded = false;
+        let aging: Vec<usize> = if yield_point {
+            (0..st.threads.len())
+                .filter(|&t| t != me && st.threads[t].status != Status::Finished && {
+                    match st.threads[t].status {
+                        Status::Runnable => true,
+                        Status::Blocked(w) => st.ready(t, w),
+                        Status::Finished => false,
+                    }
+                })
+                .collect()
+        } else {
+            Vec::new()
+        };
 
         let next = if enabled.len() == 1 {
             enabled[0]
@@ -734,6 +767,13 @@ impl Sim {
             });
             chosen
         };
+        // Threads that could have run at this yield point and did not, age.
+        for t in aging {
+            if t != next {
+                st.threads[t].skipped += 1;
+            }
+        }
+        st.threads[next].skipped = 0;
         if let Status::Blocked(_) = st.threads[next].status {
             st.threads[next].status = Status::Runnable;
         }
@@ -856,6 +896,7 @@ impl ThreadSt {
             token_vc: VClock::ZERO,
             park_calls: 0,
             yielded: false,
+            skipped: 0,
             os: None,
             name,
             pending_acq: VClock::ZERO,
